@@ -599,7 +599,13 @@ class FuncEmit:
                     s.code.insert(0, '  %s __attribute__((aligned(%d)));\n' % (E.memtype_decl(Ty('array', max(n, 1), t), r + '_mem'), max(align, 1)))
                     s.w('%s = (char*)%s_mem;' % (r, r))
             else:
-                s.w('%s = (char*)vr_alloca((uint64_t)%s * %d);' % (r, s.v(cnt), sz))
+                # keep a sizeof() in the size expression: CBMC types the object from it (T[n] instead of char[])
+                et = E.L.resolve(t); mult = 1
+                while et.k in ('array', 'vector'): mult *= et.n; et = E.L.resolve(et.el)
+                if et.k in ('int', 'float', 'double', 'ptr'):
+                    s.w('%s = (char*)vr_alloca((uint64_t)%s * %d * sizeof(%s));' % (r, s.v(cnt), mult, E.ctype(et)))
+                else:
+                    s.w('%s = (char*)vr_alloca((uint64_t)%s * %d);' % (r, s.v(cnt), sz))
         elif op == 'load':
             ptr, vol = I.a; t = E.L.resolve(I.ty)
             s.access(s.v(ptr), E.L.size(t), 0)
